@@ -304,3 +304,58 @@ extend('C18', 'Also: the mass inside the final round(..., precision) does not it
               'once); has_mods covers all ten fields (it guards the fast path of slice/split used here).')
 extend('C20', 'Also: equality does not separate annotations by presence of the position map while slice can leave an '
               'empty one.')
+
+
+# ---- third and fourth build sessions (DESIGN.md 10.9, 10.10) -------------------------------------------------------
+E_ = 'emission tree of the serializer parts (sa/emit.py: helpers inlined, aliases substituted, guard clauses and ' \
+     'conditional expressions normalised) evaluated by the checker on small representative annotations and compared ' \
+     'with the text the parser reads the same structure from'
+extend('C01', 'Also: the middle serializer writes, for every set of up to three distinct non-overlapping intervals over '
+              'three residues (adjacent and empty ones included, every residue modified) in every order of the '
+              'interval list, exactly the reference text built from the parser\'s own markers: closings of intervals '
+              'opened earlier, then empty intervals whole, then openings, then the residue, then its modifications; '
+              'an absent or empty interval list / position map writes the residues only; per-interval parser state is '
+              'bound anew when an interval opens; no fixed-digit rounding or format spec on a value path.', E_)
+extend('C02', 'Also: every read of a MONOISOTOPIC_*/AVERAGE_* table in a function that takes the switch is control '
+              'dependent on a test of the switch; a subtotal that is added to and used inside one loop is bound anew '
+              'in that loop (mass_calc, chem_calc); a returned value that does not depend on the switch is built from '
+              'the parameters and built-ins only.')
+extend('C03', 'Also: charge_adducts is tested only for presence/type where default carriers are decided; a delta-mass '
+              'modification is multiplied by its ^n multiplier in both calculators; `D[K] = D.get(K, 0) + ...` reads '
+              'the entry it writes; a subtotal used inside the loop that adds to it is reset per iteration.')
+extend('C04', 'Also: terminal targets of static rules, interval modifications and a global label on terminal groups are '
+              'neutralised before per-residue masses are summed (premises read from mass() and slice() on every run); '
+              'each fragment builder receives the ion types of its own series; a __post_init__ that rewrites a field '
+              'is substituted into the projection rule.')
+extend('C09', 'Also: a handler is accepted when the guarded block calls nothing but built-in conversions (no resolver '
+              'error can arrive there) -- the reviewed table keeps only handlers around repository calls; a helper '
+              'parser moves its position cursor exactly once per iteration; the front ends end in a raise of a '
+              'ValueError subclass or in `return x` right after `if x is None: raise`.')
+extend('C10', 'Also: dispatch tables of (predicate, handler) rows are read as the if-chain they stand for '
+              '(sa/unroll.py); startswith with a tuple of prefixes; the first resolvable `|` alternative as a loop or '
+              'as next(<results that are not None>).')
+extend('C11', 'Also: the serializer rule above for every order of the interval list (reverse() leaves it descending); '
+              'the end Boundary map of shift; the semantic terminal swap of reverse(swap_terms).', E_)
+extend('C12', 'Also: condense_static_mods writes the rule list itself (unfiltered); static interpreters agree on the '
+              'keys they accept.')
+extend('C13', 'Also: decision table over mode x already-modified site by specialisation; the conflict test is asked of '
+              'the input, not of the copy being edited; the per-site store accumulates; on every yield path the index '
+              'is <match start> + offset.')
+extend('C14', 'Also: the function specialised for use_neutron_count in {True, False} reads the neutron-offset table / the '
+              'mass table and no table in both; the average atomic mass is the abundance-weighted sum over the isotope '
+              'rows the patterns are built from.', 'specialisation of the function under both values of the option')
+extend('C15', 'Also: two adjacent (key, count)(key, count) components are tokenised as two (240 pairs including the '
+              'electron key); a fresh count per component.')
+extend('C16', 'Also: multiset size and support size are not equated in the containment test; no equality test walks '
+              'two collections with a truncating zip.')
+extend('C17', 'Also: the chosen peak is located inside the window and re-based by the window start; matched peaks are '
+              'identified by the observed m/z.')
+extend('C18', 'Also: the rounded value is read through locals and small helpers; interval modifications are condensed '
+              'on the interval; terminal static targets once.')
+extend('C19', 'Also: per-method summaries instead of body comparison: the pieces enumerated, how residue '
+              'modifications get back onto the working copy, the template every result is parsed from '
+              '(concatenation and f-strings flattened), the size handed to itertools for None/3/9 (specialisation); '
+              'every return hands back the list built from the itertools enumeration (no shortcut result).',
+       'per-method summaries by symbolic resolution and specialisation')
+extend('C20', 'Also: the serializer rule above (positions, any order, absent vs empty containers); has_mods covers all '
+              'ten fields; produced and consumed keys of pop_mods/add_mod_dict also when table-driven.', E_)
